@@ -7,7 +7,11 @@ import c04
 
 
 def make_case(rng):
-    c = c04.make_case(rng, flags={"links": True})
+    # (calls whose name is itself the result of a parser function are only generated with parser functions switched on: with
+    # expand_parserfns=False the name of such a call is an unexpanded call, which is outside the property's grammar of
+    # "calls with a name and arguments" and lands in the known late-expansion findings in ways the classifier does not follow)
+    parserfns = rng.random() < 0.6
+    c = c04.make_case(rng, flags={"links": True, "computed_names": parserfns})
     if rng.random() < 0.35:
         # the same call text more than once on the page (identical texts share internal bookkeeping; every occurrence is a
         # call of its own for the hooks)
@@ -25,7 +29,7 @@ def make_case(rng):
         pre = rng.random() < 0.3
         t[2] = pre
         tt[2] = pre
-    o = {"pre_expand": rng.random() < 0.8, "parserfns": rng.random() < 0.6}
+    o = {"pre_expand": rng.random() < 0.8, "parserfns": parserfns}
     pick = lambda: [n for n in call_names + ["nosuch"] if rng.random() < 0.4]
     mode = rng.choice(["none", "expand", "not", "both"])
     if mode in ("expand", "both"):
